@@ -120,6 +120,7 @@ static long ncalls     = 0;  /* stdio calls seen since h4v_fault_reset */
 static long fault_at   = -1; /* 1-based index of the call that fails; -1 none */
 static int  fault_sticky = 0;
 static long nfaults    = 0;  /* faults actually delivered */
+static int  fault_kind = 0; /* stdio function of the first fault delivered: 1 fopen 2 fread 3 fwrite 4 fseek 5 fflush 6 fclose */
 static int  fault_short = 0; /* for fread/fwrite: 1 = short count (half) instead of 0 */
 
 void
@@ -130,17 +131,22 @@ h4v_fault_reset(long at, int sticky, int shortcount)
     fault_sticky = sticky;
     fault_short  = shortcount;
     nfaults      = 0;
+    fault_kind   = 0;
 }
 long h4v_fault_calls(void) { return ncalls; }
 long h4v_fault_delivered(void) { return nfaults; }
 
+int h4v_fault_kind(void) { return fault_kind; }
+
 static int
-should_fail(void)
+should_fail_k(int kind)
 {
     ncalls++;
     if (fault_at < 0)
         return 0;
     if (ncalls == fault_at || (fault_sticky && ncalls > fault_at)) {
+        if (nfaults == 0)
+            fault_kind = kind;
         nfaults++;
         return 1;
     }
@@ -151,7 +157,7 @@ should_fail(void)
 FILE *
 __wrap_fopen(const char *path, const char *mode)
 {
-    if (should_fail()) {
+    if (should_fail_k(1)) {
         errno = EIO;
         return NULL;
     }
@@ -181,7 +187,7 @@ __wrap_fopen(const char *path, const char *mode)
 size_t
 __wrap_fread(void *p, size_t sz, size_t n, FILE *f)
 {
-    if (should_fail()) {
+    if (should_fail_k(2)) {
         errno = EIO;
         if (fault_short && sz * n > 1) {
             size_t half = (sz * n) / 2;
@@ -200,7 +206,7 @@ __wrap_fread(void *p, size_t sz, size_t n, FILE *f)
 size_t
 __wrap_fwrite(const void *p, size_t sz, size_t n, FILE *f)
 {
-    if (should_fail()) {
+    if (should_fail_k(3)) {
         errno = ENOSPC;
         if (fault_short && sz * n > 1) {
             size_t half = (sz * n) / 2;
@@ -230,7 +236,7 @@ __wrap_fwrite(const void *p, size_t sz, size_t n, FILE *f)
 int
 __wrap_fseek(FILE *f, long off, int wh)
 {
-    if (should_fail()) {
+    if (should_fail_k(4)) {
         errno = EIO;
         return -1;
     }
@@ -251,7 +257,7 @@ __wrap_ftell(FILE *f)
 int
 __wrap_fflush(FILE *f)
 {
-    if (should_fail()) {
+    if (should_fail_k(5)) {
         /* as ENOSPC at flush does: buffered bytes are lost */
         if (f)
             __fpurge(f);
@@ -267,7 +273,7 @@ int
 __wrap_fclose(FILE *f)
 {
     int id = stream_id(f);
-    if (should_fail()) {
+    if (should_fail_k(6)) {
         /* a failing fclose still releases the stream (C11 7.21.5.1); buffered bytes are lost */
         __fpurge(f);
         __real_fclose(f);
